@@ -168,7 +168,11 @@ PtcFire == /\ ~ptc /\ ptc' = TRUE
            /\ UNCHANGED <<lock, states, growing, terminate, thread, nsamp, cand, pcS, pcP, pcU, sampled, gpos, ncall, rdN, rdSampling, ret, bad, racy>>
 
 Next == SNext \/ PNext \/ UNext \/ PtcFire
-Spec == Init /\ [][Next]_vars /\ WF_vars(SNext) /\ WF_vars(PNext) /\ WF_vars(UNext)
+(* Fairness: each thread keeps running, and a thread that finds the mutex free again and    *)
+(* again eventually gets it (strong fairness: the planner releases lock_ for a 10 ms sleep  *)
+(* in every round of its polling loop).  The termination condition is NOT fair: it may      *)
+(* never fire.                                                                              *)
+Spec == Init /\ [][Next]_vars /\ SF_vars(SNext) /\ SF_vars(PNext) /\ SF_vars(UNext)
 
 (* ---------------------------------- safety ---------------------------------- *)
 TypeOK == /\ lock \in {"free", "S", "P", "U"} /\ pcS \in {"sync", "head", "fn", "add", "push", "exit", "done"}
